@@ -5,9 +5,10 @@
   definitions, directive definitions, schema block or `@link` schema extension — lexes and parses
   to the document `xDoc`, which IS `describe`'s document for a plain export (`xDoc_plain`) and is
   `describe`'s document up to the order of differently named directive applications always
-  (`xDoc_cDoc`, through `normDirs_swap`).
+  (`xDoc_cDoc`, through `normDirs_swap`).  The compose blocks of a federation export (composable
+  directives grouped by URL) come in any order `gs` of the groups.
 -/
-import AGV.Lemmas.SdlFedSchema
+import AGV.Lemmas.SdlCompose
 import AGV.Lemmas.SdlSort
 namespace AGV.Lemmas.SdlSkeleton
 open AGV.Core AGV.Core.PAst AGV.Core.Sdl AGV.Model.Sdl AGV.Spec.Literal AGV.Spec.Lex AGV.Spec.Parse AGV.Spec.SdlParse AGV.Lemmas.SdlLex AGV.Lemmas.SdlValue AGV.Lemmas.SdlBlock
@@ -128,15 +129,13 @@ def typeFedOk : TypeDef → Bool
   | .enum n a vs => !(n = s "Any") && appsFedOk a && vs.all (fun v => appsFedOk v.2)
   | .input n a _ fs => !(n = s "Any") && appsFedOk a && fs.all ivFedOk
 
-/-- what a federation export needs beyond `schemaOk` (decidable): no composable directive
-    definition (`composeGroups` hands `describe` the names WITH their quotes, and the URL is
-    written unescaped); no field named `_service` / `_entities` and no non-scalar type named
-    `Any` (dropped on one side only); no custom directive application named `tag` or
-    `inaccessible` (the exporter writes the federation attributes after the custom applications
-    on fields and object types, `describe` lists them first: equal only up to the order of
-    differently named directives) -/
-def federationOk (S : Schema) : Bool :=
-  S.ddefs.all (fun d => d.composable.isNone) && S.types.all typeFedOk
+/-- what a federation export needs beyond `schemaOk` (decidable): no field named `_service` /
+    `_entities` and no non-scalar type named `Any` (dropped on one side only); no custom directive
+    application named `tag` or `inaccessible` (the exporter writes the federation attributes after
+    the custom applications on fields and object types, `describe` lists them first: equal only up
+    to the order of differently named directives).  Composable directive definitions are fine:
+    any URL, any number of groups. -/
+def federationOk (S : Schema) : Bool := S.types.all typeFedOk
 
 -- ------------------------------------------------------------------ the order of directive applications
 
@@ -294,42 +293,118 @@ theorem dirDefsToks_length (o : Opts) (ds : List DirDef) : ds.length ≤ (ds.fla
       unfold dirDefToks; simp; omega
     simp at ih ⊢; omega
 
-theorem composeGroups_nil (ds : List DirDef) (h : ∀ d ∈ ds, d.composable = none) : composeGroups ds = [] := by
-  unfold composeGroups
-  generalize ([] : List (Text × List Text)) = acc
-  induction ds generalizing acc with
-  | nil => rfl
-  | cons d ds ih =>
-    rw [List.foldl_cons, h d List.mem_cons_self]
-    exact ih (fun x hx => h x (List.mem_cons_of_mem _ hx)) acc
+theorem escapeChar_nameChar (c : Char) (h : nameChar c = true) : escapeChar false c = [c] := by
+  have : c ≠ '\\' ∧ c ≠ '"' ∧ c ≠ Char.ofNat 8 ∧ c ≠ Char.ofNat 12 ∧ c ≠ '\n' ∧ c ≠ '\r' ∧ c ≠ '\t' := by
+    simp [← Char.toNat_inj, nameChar, nameStart, isAlpha, AGV.Digits.isDigit] at *
+    omega
+  simp [escapeChar, this]
 
-theorem systemDirectives_noCompose : ∀ d ∈ systemDirectives, d.composable = none := by decide
+theorem escapeString_plain : ∀ (n : Text), (∀ c ∈ n, escapeChar false c = [c]) → escapeString false n = n
+  | [], _ => rfl
+  | c :: r, h => by
+    simp [escapeString, h c List.mem_cons_self, escapeString_plain r (fun x hx => h x (List.mem_cons_of_mem _ hx))]
+
+/-- an import name `@name` needs no escaping -/
+theorem importName_plain (n : Text) (hn : isName n = true) : escapeString false ('@' :: n) = '@' :: n := by
+  apply escapeString_plain
+  intro c hc
+  rcases List.mem_cons.mp hc with rfl | hc
+  · decide
+  · cases n with
+    | nil => cases hc
+    | cons a r =>
+      simp only [isName, Bool.and_eq_true, List.all_eq_true] at hn
+      rcases List.mem_cons.mp hc with rfl | hc
+      · exact escapeChar_nameChar _ (by simp [nameChar, hn.1])
+      · exact escapeChar_nameChar _ (hn.2 c hc)
+
+theorem foldl_inv {α β : Type} (f : β → α → β) (I : β → Prop) :
+    ∀ (l : List α) (b : β), I b → (∀ b a, a ∈ l → I b → I (f b a)) → I (l.foldl f b)
+  | [], _, hb, _ => hb
+  | a :: l, b, hb, hstep =>
+    foldl_inv f I l (f b a) (hstep b a List.mem_cons_self hb) (fun b' a' ha' => hstep b' a' (List.mem_cons_of_mem _ ha'))
+
+/-- every import name of a compose group is `@` + the name of a directive -/
+theorem composeGroups_names (P : Text → Prop) (ds : List DirDef) (h : ∀ d ∈ ds, P ('@' :: d.name)) :
+    ∀ g ∈ composeGroups ds, ∀ n ∈ g.2, P n := by
+  unfold composeGroups
+  apply foldl_inv _ (fun (acc : List (Text × List Text)) => ∀ g ∈ acc, ∀ n ∈ g.2, P n)
+  · intro g hg; cases hg
+  · intro acc d hdm hacc
+    have hd := h d hdm
+    simp only []
+    split
+    · exact hacc
+    · rename_i url _
+      split
+      · intro g hg n hn
+        obtain ⟨g0, hg0, rfl⟩ := List.mem_map.mp hg
+        split at hn
+        · rcases List.mem_append.mp hn with hn | hn
+          · exact hacc g0 hg0 n hn
+          · rw [List.mem_singleton.mp hn]; exact hd
+        · exact hacc g0 hg0 n hn
+      · intro g hg n hn
+        rcases List.mem_append.mp hg with hg | hg
+        · exact hacc g hg n hn
+        · rw [List.mem_singleton.mp hg] at hn
+          rw [List.mem_singleton.mp hn]; exact hd
 
 /-- the types and directive definitions the exporter writes, in its order -/
 def exportedTypes (o : Opts) (S : Schema) : List TypeDef := (sortByName TypeDef.name S.types).filter (typeExported o)
 def exportedDirs (S : Schema) : List DirDef := (allDirectives S).filter (directivePrinted S)
 
-/-- the schema definition (plain export) / the `@link` schema extension (federation export) -/
-def schemaPartToks (o : Opts) (S : Schema) : List Tok := if o.federation then fedSchemaToks else schemaToks S
-def xSchema (o : Opts) (S : Schema) : SDef :=
-  if o.federation then .schema true [linkDir fedUrl federationImportNames] none none none
-  else .schema false [] (some S.query) S.mutation none
+/-- the schema definition (plain export) / the `@link` schema extensions (federation export: the
+    federation link, then with the compose option one block per group of `gs`) -/
+def composePart (o : Opts) (gs : List (Text × List Text)) : List (Text × List Text) := if o.compose then gs else []
+def schemaPartToks (o : Opts) (S : Schema) (gs : List (Text × List Text)) : List Tok :=
+  if o.federation then fedSchemaToks ++ (composePart o gs).flatMap groupToks else schemaToks S
+def xSchema (o : Opts) (S : Schema) (gs : List (Text × List Text)) : List SDef :=
+  if o.federation then .schema true [linkDir fedUrl federationImportNames] none none none :: (composePart o gs).map xGroup
+  else [.schema false [] (some S.query) S.mutation none]
 
 /-- the document the exported text denotes: `describe`'s, with the directive applications of
     fields and object types in the exporter's order -/
-def xDoc (o : Opts) (S : Schema) : List SDef :=
-  (exportedTypes o S).filterMap (xType o) ++ ((exportedDirs S).map dDirective ++ [xSchema o S])
+def xDoc (o : Opts) (S : Schema) (gs : List (Text × List Text)) : List SDef :=
+  (exportedTypes o S).filterMap (xType o) ++ ((exportedDirs S).map dDirective ++ xSchema o S gs)
 
-theorem schemaPart (o : Opts) (S : Schema) :
-    DefEnd (schemaPartToks o S) ∧ schemaPartToks o S ≠ [] ∧ pDef (schemaPartToks o S) = some (xSchema o S, []) := by
+theorem schemaPart (o : Opts) (S : Schema) (gs : List (Text × List Text)) :
+    DefEnd (schemaPartToks o S gs) ∧ schemaPartToks o S gs ≠ [] ∧
+      ∀ g, (schemaPartToks o S gs).length ≤ g → pDefs g (schemaPartToks o S gs) = some (xSchema o S gs) := by
   unfold schemaPartToks xSchema
   split
-  · exact ⟨DefEnd.name _ _, by simp [fedSchemaToks], pDef_fedSchema⟩
-  · exact ⟨DefEnd.name _ _, by simp [schemaToks], pDef_schema S⟩
+  · refine ⟨DefEnd.name _ _, by simp [fedSchemaToks], fun g hg => ?_⟩
+    have h := pDefs_exts ([linkApp] :: (composePart o gs).map groupApps) (by simp)
+      (by
+        intro a ha
+        rcases List.mem_cons.mp ha with rfl | ha
+        · exact ⟨by simp, linkApp_wf⟩
+        · obtain ⟨x, _, rfl⟩ := List.mem_map.mp ha
+          exact ⟨groupApps_ne x, groupApps_wf x⟩) g
+      (by
+        have h1 : ∀ L : List (Text × List Text), L.length ≤ (L.flatMap groupToks).length := by
+          intro L
+          induction L with
+          | nil => simp
+          | cons x L ih => simp [groupToks, extToks] at ih ⊢; omega
+        have := h1 (composePart o gs)
+        simp only [fedSchemaToks, List.length_append, List.length_cons, List.length_map] at hg ⊢
+        omega)
+    have e1 : (composePart o gs).flatMap groupToks = (composePart o gs).flatMap (fun a => extToks (groupApps a)) := rfl
+    have e2 : (composePart o gs).map xGroup =
+        (composePart o gs).map (fun x => SDef.schema true ((groupApps x).map dDir) none none none) := rfl
+    rw [e1, e2]
+    simpa [fedSchemaToks_ext, linkApp_dDir, List.flatMap_map, List.map_map, Function.comp_def] using h
+  · refine ⟨DefEnd.name _ _, by simp [schemaToks], fun g hg => ?_⟩
+    obtain ⟨g, rfl⟩ : ∃ g', g = g' + 1 := ⟨g - 1, by simp [schemaToks] at hg; omega⟩
+    simp [pDefs, pDef_schema]
 
 /-- the token sequence of the whole exported document -/
-def docToks (o : Opts) (S : Schema) : List Tok :=
-  (exportedTypes o S).flatMap (defToks o) ++ ((exportedDirs S).flatMap (dirDefToks o) ++ schemaPartToks o S)
+def docToks (o : Opts) (S : Schema) (gs : List (Text × List Text)) : List Tok :=
+  (exportedTypes o S).flatMap (defToks o) ++ ((exportedDirs S).flatMap (dirDefToks o) ++ schemaPartToks o S gs)
+
+/-- the compose groups a document may list: every import name needs no escaping (`@` + a Name) -/
+def GroupsOk (gs : List (Text × List Text)) : Prop := ∀ g ∈ gs, ∀ n ∈ g.2, escapeString false n = n
 
 theorem exported_wf (o : Opts) (S : Schema) (hS : schemaOk S = true) (hF : o.federation = true → federationOk S = true) :
     (∀ t ∈ exportedTypes o S, SkelType t ∧ FedFields o t) ∧ (∀ d ∈ exportedDirs S, SkelDirDef d) := by
@@ -343,8 +418,8 @@ theorem exported_wf (o : Opts) (S : Schema) (hS : schemaOk S = true) (hF : o.fed
     | false => cases t <;> simp [FedFields, hf]
     | true =>
       have hfo := hF hf
-      simp only [federationOk, Bool.and_eq_true, List.all_eq_true] at hfo
-      have ht2 := hfo.2 t hmem
+      simp only [federationOk, List.all_eq_true] at hfo
+      have ht2 := hfo t hmem
       cases t with
       | object n a e i fs =>
         simp only [typeFedOk, Bool.and_eq_true, List.all_eq_true] at ht2
@@ -370,12 +445,27 @@ theorem exported_wf (o : Opts) (S : Schema) (hS : schemaOk S = true) (hF : o.fed
     · exact dirDefOk_sound (List.all_eq_true.mp systemDirectives_ok d (List.mem_filter.mp h).1)
   exact ⟨hL, hDs⟩
 
+/-- the groups the model writes are fine: every import name is `@` + the name of a registered
+    directive, and those are Names -/
+theorem composeGroups_ok (S : Schema) (hS : schemaOk S = true) : GroupsOk (composeGroups (allDirectives S)) := by
+  simp only [schemaOk, Bool.and_eq_true, List.all_eq_true] at hS
+  apply composeGroups_names (fun n => escapeString false n = n)
+  intro d hd
+  apply importName_plain
+  rcases List.mem_append.mp (List.mem_mergeSort.mp hd) with h | h
+  · exact (dirDefOk_sound (hS.2 d h)).name
+  · exact (dirDefOk_sound (List.all_eq_true.mp systemDirectives_ok d (List.mem_filter.mp h).1)).name
+
+theorem GroupsOk.perm {gs gs' : List (Text × List Text)} (h : GroupsOk gs') (hp : gs.Perm gs') : GroupsOk gs :=
+  fun g hg => h g (hp.mem_iff.mp hg)
+
 /-- CHARACTERS TO TOKENS, every option set: the exported text of a well-formed schema is, for the
     specification's lexer, exactly the token sequence `docToks` (every separator the exporter
     writes — blanks, tabs, line ends, commas — is ignored; every lexeme ends where the exporter
-    ends it). -/
-theorem Lx_document (o : Opts) (S : Schema) (hS : schemaOk S = true) (hF : o.federation = true → federationOk S = true) :
-    Lx (exportSdl Defects.none S o) (docToks o S) := by
+    ends it), the compose blocks in any order `gs`. -/
+theorem Lx_document (o : Opts) (S : Schema) (hS : schemaOk S = true) (hF : o.federation = true → federationOk S = true)
+    (gs : List (Text × List Text)) (hgs : GroupsOk gs) :
+    Lx (exportSdlG Defects.none S o gs) (docToks o S gs) := by
   obtain ⟨hL, hDs⟩ := exported_wf o S hS hF
   simp only [schemaOk, Bool.and_eq_true, List.all_eq_true] at hS
   obtain ⟨⟨⟨hq, hm⟩, hty⟩, hdd⟩ := hS
@@ -383,42 +473,38 @@ theorem Lx_document (o : Opts) (S : Schema) (hS : schemaOk S = true) (hF : o.fed
     intro m e; rw [e] at hm; exact hm
   unfold docToks
   -- the text and its tokens
-  have key : ∀ (txt : Text), Lx txt (schemaPartToks o S) →
+  have key : ∀ (txt : Text), Lx txt (schemaPartToks o S gs) →
       Lx ((((exportedTypes o S).map (exportType Defects.none o)).flatten) ++
         ((((exportedDirs S).map (fun d => directiveSdl Defects.none o d ++ ['\n'])).flatten) ++ txt))
-        ((exportedTypes o S).flatMap (defToks o) ++ ((exportedDirs S).flatMap (dirDefToks o) ++ schemaPartToks o S)) :=
+        ((exportedTypes o S).flatMap (defToks o) ++ ((exportedDirs S).flatMap (dirDefToks o) ++ schemaPartToks o S gs)) :=
     fun txt h1 => Lx_typeDefs_then o _ hL _ _ (Lx_dirDefs o _ hDs _ _ h1)
   cases hf : o.federation with
   | false =>
     have h1 := Lx_schema o S hq hm'
     have h3 := key _ (by simpa [schemaPartToks, hf] using h1)
     cases hmu : S.mutation with
-    | none => simp only [hmu] at h3; simpa [exportSdl, exportedTypes, exportedDirs, hf, hmu, List.append_assoc] using h3
-    | some m => simp only [hmu] at h3; simpa [exportSdl, exportedTypes, exportedDirs, hf, hmu, List.append_assoc] using h3
+    | none => simp only [hmu] at h3; simpa [exportSdlG, exportedTypes, exportedDirs, hf, hmu, List.append_assoc] using h3
+    | some m => simp only [hmu] at h3; simpa [exportSdlG, exportedTypes, exportedDirs, hf, hmu, List.append_assoc] using h3
   | true =>
-    have hfo := hF hf
-    simp only [federationOk, Bool.and_eq_true, List.all_eq_true] at hfo
-    have hg : composeGroups (allDirectives S) = [] := by
-      apply composeGroups_nil
-      intro d hd
-      rcases List.mem_append.mp (List.mem_mergeSort.mp hd) with h | h
-      · have := hfo.1 d h
-        cases hc : d.composable with
-        | none => rfl
-        | some u => rw [hc] at this; cases this
-      · exact systemDirectives_noCompose d (List.mem_filter.mp h).1
-    have h1 := Lx_fedSchema o (if o.compose then ['\n'] else []) (by cases o.compose <;> simp)
-    have h3 := key _ (by simpa [schemaPartToks, hf] using h1)
-    cases hc : o.compose <;>
-      (simp only [hc] at h3; simpa [exportSdl, exportedTypes, exportedDirs, hf, hc, hg, List.append_assoc] using h3)
+    cases hc : o.compose with
+    | false =>
+      have h1 := Lx_fedSchema o [] [] Lx.nil
+      have h3 := key _ (by simpa [schemaPartToks, composePart, hf, hc] using h1)
+      simpa [exportSdlG, exportedTypes, exportedDirs, hf, hc, List.append_assoc] using h3
+    | true =>
+      have h0 := Lx_groups o gs hgs [] [] Lx.nil
+      have h1 := Lx_fedSchema o _ _ (Lx.ign (c := '\n') (by decide) h0)
+      have h3 := key _ (by simpa [schemaPartToks, composePart, hf, hc] using h1)
+      simpa [exportSdlG, exportedTypes, exportedDirs, hf, hc, List.append_assoc] using h3
 
 /-- THE WHOLE DOCUMENT, every option set: for a well-formed schema (`schemaOk`; for a federation
     export also `federationOk`) the exported text — lexed by the specification's lexer, parsed by
-    the reference parser — is the document `xDoc`. -/
-theorem parse_xDoc (o : Opts) (S : Schema) (hS : schemaOk S = true) (hF : o.federation = true → federationOk S = true) :
-    parseSchema (exportSdl Defects.none S o) = some (xDoc o S) := by
+    the reference parser — is the document `xDoc`, the compose blocks in any order `gs`. -/
+theorem parse_xDoc (o : Opts) (S : Schema) (hS : schemaOk S = true) (hF : o.federation = true → federationOk S = true)
+    (gs : List (Text × List Text)) (hgs : GroupsOk gs) :
+    parseSchema (exportSdlG Defects.none S o gs) = some (xDoc o S gs) := by
   obtain ⟨hL, hDs⟩ := exported_wf o S hS hF
-  have hlx := Lx_document o S hS hF
+  have hlx := Lx_document o S hS hF gs hgs
   unfold docToks at hlx
   unfold parseSchema
   rw [hlx.tokens]
@@ -426,17 +512,17 @@ theorem parse_xDoc (o : Opts) (S : Schema) (hS : schemaOk S = true) (hF : o.fede
   have hL1 : ∀ t ∈ exportedTypes o S, SkelType t := fun t ht => (hL t ht).1
   have hb1 := defs_le_toks o _ hL1
   have hb2 := dirDefsToks_length o (exportedDirs S)
-  obtain ⟨hse, hsne, hsp⟩ := schemaPart o S
-  have hfuel : ((exportedTypes o S).flatMap (defToks o) ++ ((exportedDirs S).flatMap (dirDefToks o) ++ schemaPartToks o S)).length + 1 =
+  obtain ⟨hse, hsne, hsp⟩ := schemaPart o S gs
+  have hfuel : ((exportedTypes o S).flatMap (defToks o) ++ ((exportedDirs S).flatMap (dirDefToks o) ++ schemaPartToks o S gs)).length + 1 =
       ((((exportedTypes o S).flatMap (defToks o)).length - ((exportedTypes o S).filterMap (xType o)).length +
         (((exportedDirs S).flatMap (dirDefToks o)).length - (exportedDirs S).length) +
-        (schemaPartToks o S).length) + 1 + (exportedDirs S).length) + ((exportedTypes o S).filterMap (xType o)).length := by
+        (schemaPartToks o S gs).length) + 1 + (exportedDirs S).length) + ((exportedTypes o S).filterMap (xType o)).length := by
     simp only [List.length_append]; omega
   rw [hfuel]
-  have hR : DefEnd ((exportedDirs S).flatMap (dirDefToks o) ++ schemaPartToks o S) := dirDefsToks_end o _ _ hse
+  have hR : DefEnd ((exportedDirs S).flatMap (dirDefToks o) ++ schemaPartToks o S gs) := dirDefsToks_end o _ _ hse
   rw [pDefs_toks_then o _ hL1 _ hR (by intro e; exact hsne (List.append_eq_nil_iff.mp e).2)]
   rw [pDefs_dirDefs_then o _ hDs _ hse hsne]
-  rw [pDefs, hsp]
+  rw [hsp _ (by omega)]
   simp
 
 -- ------------------------------------------------------------------ the document `describe` requires
@@ -516,9 +602,21 @@ theorem typeAttrs_of_ok {S : Schema} (hS : schemaOk S = true) : ∀ t ∈ S.type
   have := typeOk_sound (hS.1.2 t ht)
   cases t <;> first | exact this.2.1 | exact this.2
 
+theorem xSchema_dSchema (o : Opts) (S : Schema) (gs : List (Text × List Text)) : xSchema o S gs = dSchema o S gs := by
+  unfold xSchema dSchema composePart
+  cases o.federation
+  · rfl
+  · simp only [if_true, fedUrl]
+    cases o.compose
+    · rfl
+    · simp only [if_true, List.cons.injEq, true_and]
+      apply List.map_congr_left
+      intro g _
+      simp only [xGroup, groupApps_dDir]
+
 /-- for a plain export the document the text denotes IS the document `describe` requires -/
-theorem xDoc_plain (o : Opts) (ho : o.federation = false) (S : Schema) (hS : schemaOk S = true) :
-    xDoc o S = describe o S (allDirectives S) (composeGroups (allDirectives S)) (presentOf S) := by
+theorem xDoc_plain (o : Opts) (ho : o.federation = false) (S : Schema) (hS : schemaOk S = true) (gs : List (Text × List Text)) :
+    xDoc o S gs = describe o S (allDirectives S) gs (presentOf S) := by
   have hta := typeAttrs_of_ok hS
   rw [describe, describedTypes, describedDirs, xDoc]
   have h1 : (exportedTypes o S).filter (fun t => !(o.federation && decide (t.name = s "Any"))) = exportedTypes o S := by
@@ -532,37 +630,28 @@ theorem xDoc_plain (o : Opts) (ho : o.federation = false) (S : Schema) (hS : sch
       | cons t L ih =>
         simp only [List.filterMap_cons, hL t List.mem_cons_self, ih (fun x hx => hL x (List.mem_cons_of_mem _ hx))]
     exact key _ (fun t ht => xType_plain o ho t (hta t (List.mem_mergeSort.mp (List.mem_filter.mp ht).1)))
-  rw [h2]
-  simp [xSchema, dSchema, ho]
+  rw [h2, xSchema_dSchema, List.append_assoc]
 
 /-- for EVERY export the document the text denotes is the document `describe` requires up to the
     order of differently named directive applications (the comparison `cDoc` makes) -/
-theorem xDoc_cDoc (o : Opts) (S : Schema) (hS : schemaOk S = true) (hF : o.federation = true → federationOk S = true) :
-    cDoc (xDoc o S) = cDoc (describe o S (allDirectives S) (composeGroups (allDirectives S)) (presentOf S)) := by
+theorem xDoc_cDoc (o : Opts) (S : Schema) (hS : schemaOk S = true) (hF : o.federation = true → federationOk S = true)
+    (gs : List (Text × List Text)) :
+    cDoc (xDoc o S gs) = cDoc (describe o S (allDirectives S) gs (presentOf S)) := by
   cases hf : o.federation with
   | false => rw [xDoc_plain o hf S hS]
   | true =>
     have hta := typeAttrs_of_ok hS
     have hfo := hF hf
-    simp only [federationOk, Bool.and_eq_true, List.all_eq_true] at hfo
+    simp only [federationOk, List.all_eq_true] at hfo
     have hmemS : ∀ t ∈ exportedTypes o S, t ∈ S.types := fun t ht => List.mem_mergeSort.mp (List.mem_filter.mp ht).1
-    have hg : composeGroups (allDirectives S) = [] := by
-      apply composeGroups_nil
-      intro d hd
-      rcases List.mem_append.mp (List.mem_mergeSort.mp hd) with h | h
-      · have := hfo.1 d h
-        cases hc : d.composable with
-        | none => rfl
-        | some u => rw [hc] at this; cases this
-      · exact systemDirectives_noCompose d (List.mem_filter.mp h).1
-    rw [describe, describedTypes, describedDirs, xDoc, hg]
+    rw [describe, describedTypes, describedDirs, xDoc]
     -- `Any`
     have hA : ((exportedTypes o S).filter (fun t => !(o.federation && decide (t.name = s "Any")))).filterMap (xType o) =
         (exportedTypes o S).filterMap (xType o) := by
       apply filterMap_filter_none
       intro t ht hq
       have hn : t.name = s "Any" := by simpa [hf] using hq
-      have ht2 := hfo.2 t (hmemS t ht)
+      have ht2 := hfo t (hmemS t ht)
       cases t with
       | scalar n a u =>
         have : n = s "Any" := hn
@@ -577,10 +666,8 @@ theorem xDoc_cDoc (o : Opts) (S : Schema) (hS : schemaOk S = true) (hF : o.feder
       apply filterMap_map_congr
       intro t ht
       have ht' := List.mem_filter.mp ht
-      exact cDef_xType o t (hta t (hmemS t ht'.1)) (fun _ => hfo.2 t (hmemS t ht'.1)) (by have := ht'.2; rw [Bool.not_eq_true'] at this; exact this)
-    have hC : [xSchema o S] = dSchema o S [] := by
-      simp [xSchema, dSchema, hf, fedUrl]
+      exact cDef_xType o t (hta t (hmemS t ht'.1)) (fun _ => hfo t (hmemS t ht'.1)) (by have := ht'.2; rw [Bool.not_eq_true'] at this; exact this)
     unfold cDoc
-    rw [← hA, List.map_append, List.map_append, List.map_append, List.map_append, hB, hC, List.append_assoc]
+    rw [← hA, List.map_append, List.map_append, List.map_append, List.map_append, hB, xSchema_dSchema, List.append_assoc]
 
 end AGV.Lemmas.SdlSkeleton
